@@ -184,8 +184,15 @@ def encoder_rules(chk, fx, enc):
                 inst = 'Float:' + ('guarded' if a.get('g') else 'rest')
                 seen.add(inst)
                 if a.get('g'):
-                    if 'is_finite' in T.show(a['g']):
+                    # the text of a finite float is what one `{:?}` / `{}` formatting gives (Rust prints a JSON number: digits, `.`, `e`, `-`); any edit of that text
+                    # afterwards (push / insert / replace / a second template around it) must keep it a number for every value, which is not decided: reported
+                    edits = [c_ for c_ in T.calls(body) if c_.get('k') == 'MCall' and c_['n'] in ('push', 'push_str', 'insert', 'insert_str', 'replace', 'replacen', 'trim_end_matches',
+                                                                                                 'trim_start_matches', 'truncate', 'pop', 'remove', 'extend')]
+                    if 'is_finite' in T.show(a['g']) and not edits:
                         chk.ok('C18-value', inst)
+                    elif edits:
+                        chk.bad('C18-value', vname, 'Float:edited', 'the Float arm of the value encoder edits the formatted number afterwards (`%s`): the Debug text of a float is not always '
+                                'positional — 1e16 and 1e-7 have no `.`, so appending `.0` gives `1e16.0`, which is not a JSON number' % T.show(edits[0])[:40], TR, a['l'])
                     else:
                         chk.bad('C18-value', vname, inst, 'the guarded Float arm does not test is_finite()', TR, a['l'])
                 else:
